@@ -59,8 +59,10 @@ MUTANTS = [
     ('c09-dispatcher-not-put-into-locator', ['C09'], PROC, "               f'.set({facilities.dispatcher.name})))',", "               '))',", 0),
     ('c09-create-check-inverted', ['C09'], PROC,
      "'if (locator.try_get<dzn::pump>() != nullptr) throw std::runtime_error('", "'if (locator.try_get<dzn::pump>() == nullptr) throw std::runtime_error('", 0),
-    ('c09-import-runtime-not-checked', ['C09'], PROC,
-     "            'if (locator.try_get<dzn::runtime>() == nullptr) throw std::runtime_error('\n            f'\"{scope.name}: Dezyne runtime missing (dzn::runtime)\");',\n", '', 0),
+    # (dropping one of the import presence checks is an EQUIVALENT mutant: locator.get<>() in the member initialiser and
+    #  in the wrapped component still make construction fail - the statement only demands that it fails)
+    ('c09-import-check-inverted', ['C09'], PROC,
+     "'if (locator.try_get<dzn::pump>() == nullptr) throw std::runtime_error('", "'if (locator.try_get<dzn::pump>() != nullptr) throw std::runtime_error('", 0),
     ('c10-multiclient-final-construct-dropped', ['C10'], PROC,
      "    final_construct_calls = [f'{p.accessor_target}.FinalConstruct();' for p in all_pp if\n                             p.dzn_port_itf.multiclient]",
      "    final_construct_calls = []", 0),
